@@ -152,6 +152,14 @@ Theorem C02_lone_handshake_never_waits : forall is_space w h own kids res w',
 Proof. exact handshake_no_selfwait. Qed.
 Print Assumptions C02_lone_handshake_never_waits.
 
+(** every handshake ends with an error or a complete certificate, never with the empty certificate
+    and a nil error (C03's clause; the on-demand paths are driven by this check only: third clause of
+    the monitor [Check.replay] evaluates on the implementation) *)
+Theorem C02_result_is_an_error_or_a_certificate : forall is_space w h own kids res w',
+  handshake is_space w h = (own, kids, res, w') -> res <> REmpty.
+Proof. exact handshake_result_not_empty. Qed.
+Print Assumptions C02_result_is_an_error_or_a_certificate.
+
 (** the literals of handshake.go that [gate]'s call sites, [almost_full] and the miss path of
     [get_cert] were modelled after are the ones in the source today (read by the translator on every
     run; a change breaks this proof) *)
